@@ -533,7 +533,15 @@ def rule_condspec(ctx, prop: str) -> RuleResult:
             names = sorted({x.id for x in ast.walk(n.test) if isinstance(x, ast.Name)} - fixed)
             best = None
             sp = to_form(ast.parse(spec_src, mode="eval").body)
-            for perm in itertools.permutations(names, min(len(locs), len(names))):
+            k_ = min(len(locs), len(names))
+            ident = tuple(l for l in locs if l in names)
+            perms = itertools.permutations(names, k_)
+            if len(ident) == k_:
+                # the code still uses the row's names: try that reading first (and stop there if it holds)
+                perms = itertools.chain([ident], (q for q in itertools.permutations(names, k_) if q != ident))
+            for perm in perms:
+                if best is not None and best[0] and best[1] > 0:
+                    break
                 # express the test in the row's own local names (so that reports and
                 # known-finding keys do not depend on how the code names its locals)
                 inv = dict(zip(perm, locs))
@@ -544,7 +552,7 @@ def rule_condspec(ctx, prop: str) -> RuleResult:
 
                 import copy
 
-                t_ast = Ren().visit(copy.deepcopy(n.test))
+                t_ast = Ren().visit(ast.parse(ast.unparse(n.test), mode="eval").body)
                 test = to_form(t_ast)
                 shared = len(atoms(sp) & atoms(test))
                 if not shared and not strict:
